@@ -1,4 +1,5 @@
 import SwcVerif.Props.C08
+import SwcVerif.Props.C08Gen
 #print axioms C08.getBranches_eq
 #print axioms C08.branches_partition_edges
 #print axioms C08.branch_shape
@@ -10,3 +11,14 @@ import SwcVerif.Props.C08
 #print axioms C08.furcations_eq
 #print axioms C08.furcsOf_ge2
 #print axioms C08.branchTree_table
+#print axioms RefineClosures.spec_wrap
+#print axioms RefineClosures.traverse_closures
+#print axioms RefineBranches.collectBranches_refines
+#print axioms RefineBranches.collectFurcations_refines
+#print axioms RefineBranches.assignPath_refines
+#print axioms RefineBranches.collectPath_refines
+#print axioms RefineBranches.getBranches_refines
+#print axioms RefineBranches.getFurcations_refines
+#print axioms C08.generated_getBranches_eq
+#print axioms C08.generated_getBranches_eq_model
+#print axioms C08.generated_furcations_eq
